@@ -79,6 +79,25 @@ func diffDumps(a, f state.VerifC11Dump) []string {
 		if !strsEq(x.VolumeUnion, y.VolumeUnion) || !volsEq(x.PodVolumes, y.PodVolumes) {
 			add("volume-usage", "%s cached=%v/%v fresh=%v/%v", id, x.VolumeUnion, x.PodVolumes, y.VolumeUnion, y.PodVolumes)
 		}
+		if rlTriple(x.SumPodLimits) != rlTriple(y.SumPodLimits) || rlTriple(x.SumDaemonLimits) != rlTriple(y.SumDaemonLimits) {
+			add("pod-limits", "%s cached=%v/%v fresh=%v/%v", id, rlTriple(x.SumPodLimits), rlTriple(x.SumDaemonLimits), rlTriple(y.SumPodLimits), rlTriple(y.SumDaemonLimits))
+		}
+		if rlTriple(x.Allocatable) != rlTriple(y.Allocatable) || rlTriple(x.Available) != rlTriple(y.Available) || rlTriple(x.Capacity) != rlTriple(y.Capacity) {
+			add("allocatable", "%s cached=%v/%v fresh=%v/%v", id, rlTriple(x.Allocatable), rlTriple(x.Available), rlTriple(y.Allocatable), rlTriple(y.Available))
+		}
+		if x.Name != y.Name || x.HostName != y.HostName || !strsEq(x.Taints, y.Taints) || x.PoolLabel != y.PoolLabel || x.DoNotDisrupt != y.DoNotDisrupt ||
+			x.Initialized != y.Initialized || x.Registered != y.Registered {
+			add("node-attributes", "%s cached=%s/%s/%v/%s fresh=%s/%s/%v/%s", id, x.Name, x.HostName, x.Taints, x.PoolLabel, y.Name, y.HostName, y.Taints, y.PoolLabel)
+		}
+		if !reflect.DeepEqual(x.VolumeLimits, y.VolumeLimits) || !reflect.DeepEqual(x.ExceedsLimits, y.ExceedsLimits) {
+			add("volume-limits", "%s cached=%v/%v fresh=%v/%v", id, x.VolumeLimits, x.ExceedsLimits, y.VolumeLimits, y.ExceedsLimits)
+		}
+		if x.Disruptable != y.Disruptable {
+			add("node-attributes", "%s ValidateNodeDisruptable cached=%q fresh=%q", id, x.Disruptable, y.Disruptable)
+		}
+		if !reflect.DeepEqual(x.PortConflicts, y.PortConflicts) {
+			add("host-port-conflicts", "%s cached=%v fresh=%v", id, x.PortConflicts, y.PortConflicts)
+		}
 		if x.MarkedForDeletion != y.MarkedForDeletion || x.MarkedField != y.MarkedField {
 			add("deletion-mark", "%s cached=%v fresh=%v", id, x.MarkedForDeletion, y.MarkedForDeletion)
 		}
@@ -167,6 +186,79 @@ func poolStateDiff(a, f *state.Cluster, pools []string) []string {
 	}
 	if !reflect.DeepEqual(am, fm) {
 		out = append(out, fmt.Sprintf("nodepool-counts: claim map cached=%v fresh=%v", am, fm))
+	}
+	return out
+}
+
+// accessorDiff checks the exported accessors of one cluster against its own dump (NodePoolResourcesFor, the
+// Nodes iterator, DeepCopyNodes).
+func accessorDiff(c *state.Cluster) []string {
+	var out []string
+	d := c.VerifC11Dump()
+	perPool, iter, cp, nom := c.VerifC11Accessors([]string{"pa", "pb", ""})
+	if nom["verif-unknown-id"] {
+		out = append(out, "accessors: IsNodeNominated of an unknown provider id is true")
+	}
+	ids := make([]string, 0, len(d.Nodes))
+	for id := range d.Nodes {
+		ids = append(ids, id)
+	}
+	sort.Strings(ids)
+	if !strsEq(ids, iter) || !strsEq(ids, cp) {
+		out = append(out, fmt.Sprintf("accessors: Nodes()=%v DeepCopyNodes()=%v cached ids=%v", iter, cp, ids))
+	}
+	names := []string{"c0", "c1", "c2", "cf", "nope"}
+	ex, un, act, del := c.VerifC11Names(names)
+	marked := 0
+	for _, n := range d.Nodes {
+		if n.MarkedForDeletion {
+			marked++
+		}
+	}
+	if act != len(d.Nodes)-marked || del != marked {
+		out = append(out, fmt.Sprintf("accessors: StateNodes.Active/Deleting=%d/%d, %d of %d nodes are marked for deletion", act, del, marked, len(d.Nodes)))
+	}
+	for _, n := range names {
+		pid, ok := d.ClaimNameToPID[n]
+		if ex[n] != ok || un[n] != (ok && pid == "") {
+			out = append(out, fmt.Sprintf("accessors: NodeClaimExists(%s)=%v UnlaunchedNodeClaimExists=%v, map has %q/%v", n, ex[n], un[n], pid, ok))
+		}
+	}
+	// volume limits come from the CSINode fixtures; ExceedsLimits follows from the union and the limits
+	want := map[string]map[string]int{"n0": {"drv1": 2}, "n1": {"drv1": 1, "drv2": 0}}
+	probes := [][]string{{"drv1|default/probe-1"}, {"drv1|default/probe-1", "drv1|default/probe-2"}, {"drv2|default/probe-1"}, {}}
+	for id, n := range d.Nodes {
+		w := want[n.NodeName]
+		if w == nil {
+			w = map[string]int{}
+		}
+		if !reflect.DeepEqual(n.VolumeLimits, w) {
+			out = append(out, fmt.Sprintf("volume-limits: %s (%s) limits=%v, the CSINode says %v", id, n.NodeName, n.VolumeLimits, w))
+		}
+		for i, pr := range probes {
+			per := map[string]map[string]bool{}
+			for _, v := range append(append([]string{}, n.VolumeUnion...), pr...) {
+				k := v[:4]
+				if per[k] == nil {
+					per[k] = map[string]bool{}
+				}
+				per[k][v] = true
+			}
+			exceeds := false
+			for k, vs := range per {
+				if l, ok := w[k]; ok && len(vs) > l {
+					exceeds = true
+				}
+			}
+			if i < len(n.ExceedsLimits) && n.ExceedsLimits[i] != exceeds {
+				out = append(out, fmt.Sprintf("volume-limits: %s ExceedsLimits(%v)=%v with union %v and limits %v", id, pr, n.ExceedsLimits[i], n.VolumeUnion, w))
+			}
+		}
+	}
+	for p, r := range perPool {
+		if rlTriple(r) != rlTriple(d.NodePoolResources[p]) {
+			out = append(out, fmt.Sprintf("accessors: NodePoolResourcesFor(%s)=%v map=%v", p, rlTriple(r), rlTriple(d.NodePoolResources[p])))
+		}
 	}
 	return out
 }
